@@ -1,6 +1,7 @@
 /- Driver handlers for the `path` stream. Strings travel as comma-separated code points. -/
 import SevenZ.Driver.Util
 import SevenZ.Model.Path
+import SevenZ.Model.Cli
 namespace SevenZ.Driver
 open SevenZ
 
@@ -39,6 +40,12 @@ def pathHandler (op : String) (args : List String) : Option String :=
       | none => "err"
       | some q => "ok " ++ showStr q)
   | "path.stored", [a] => do pure (showStr (Impl.storedName (← parseStr a)))
+  | "cli.check", [a] => do pure (b01 (Impl.checkVolumeSize (← parseStr a)))
+  | "cli.conv", [r, a] => do
+    pure (match Impl.unitConv (← parseBool r) (← parseStr a) with
+      | .size n => toString n
+      | .minusOne => "-1"
+      | .keyError => "KeyError")
   | _, _ => none
 
 end SevenZ.Driver
